@@ -16,6 +16,7 @@ import (
 	"strings"
 	"sync"
 	"sync/atomic"
+	"syscall"
 	"testing/synctest"
 	"time"
 
@@ -29,14 +30,43 @@ var ErrCrashed = errors.New("verif: simulated process crashed")
 // ErrInjected is the base of every injected error.
 var ErrInjected = errors.New("verif: injected fault")
 
-// InjectedError is an injected fault of a particular kind.
+// InjectedError is an injected fault of a particular kind. Write-side faults also carry an
+// errno, a pure function of kind and operation (no draw): real write failures are ENOSPC, EIO,
+// EACCES - and ENOENT when a directory vanishes -, and code that inspects the error
+// (errors.Is(err, fs.ErrNotExist)) must not mistake a failed write for an absent object.
 type InjectedError struct {
-	Kind string
-	Op   string
+	Kind  string
+	Op    string
+	Errno syscall.Errno
 }
 
-func (e *InjectedError) Error() string { return "verif: injected " + e.Kind + " at " + e.Op }
-func (e *InjectedError) Unwrap() error { return ErrInjected }
+func (e *InjectedError) Error() string {
+	if e.Errno != 0 {
+		return "verif: injected " + e.Kind + " at " + e.Op + ": " + e.Errno.Error()
+	}
+	return "verif: injected " + e.Kind + " at " + e.Op
+}
+
+// Unwrap makes errors.Is see both the injection marker and the errno.
+func (e *InjectedError) Unwrap() []error {
+	if e.Errno != 0 {
+		return []error{ErrInjected, e.Errno}
+	}
+	return []error{ErrInjected}
+}
+
+var writeSideFaults = map[string]bool{"put-err": true, "write-err": true, "short-write": true, "close-err": true, "rename-err": true}
+
+func errnoFor(kind, op string, salt int) syscall.Errno {
+	if !writeSideFaults[kind] || salt == 0 {
+		return 0
+	}
+	h := uint32(salt)
+	for _, c := range []byte(kind + "|" + op) {
+		h = h*31 + uint32(c)
+	}
+	return []syscall.Errno{0, syscall.ENOSPC, syscall.ENOENT, syscall.EACCES, syscall.EIO, syscall.ENOENT}[h%6]
+}
 
 // Op identifies an intercepted operation.
 type Op struct {
@@ -62,6 +92,7 @@ func (o Op) PosKey() string { return o.Kind + "|" + o.Path + "|" + strconv.Itoa(
 type Decision struct {
 	Fault   string // "" = none
 	Arg     int
+	Salt    int // set by the scheduler for write-side faults: selects the errno of the injected error
 	Dead    bool
 	Timeout bool
 }
@@ -74,7 +105,7 @@ func (d Decision) Err(op string) error {
 	if d.Fault == "" {
 		return nil
 	}
-	return &InjectedError{Kind: d.Fault, Op: op}
+	return &InjectedError{Kind: d.Fault, Op: op, Errno: errnoFor(d.Fault, op, d.Salt)}
 }
 
 // Policy decides the fault for an operation about to be released. It may draw.
@@ -126,8 +157,9 @@ type Violation struct {
 
 // Sim is one simulated run.
 type Sim struct {
-	Tape   *tape.Tape
-	Policy Policy
+	Tape      *tape.Tape
+	Policy    Policy
+	errnoSalt int
 	// BeforeRelease, if set, is called by the scheduler goroutine while every
 	// task is parked, just before op is released (crash snapshots live here).
 	BeforeRelease func(op Op)
@@ -352,6 +384,18 @@ func (s *Sim) Yield(ctx context.Context, kind, path string, opts ...YieldOpt) De
 
 // YieldCurrent parks the calling goroutine, attributing it to the task that
 // was released last (used by ctx-less hooks below an intercepted operation).
+// YieldCurrentAs is YieldCurrent with the operation kind taken as given: for operations of
+// code that no wrapper sits in front of (raw mode of the storage hooks).
+func (s *Sim) YieldCurrentAs(kind, path string, opts ...YieldOpt) Decision {
+	s.mu.Lock()
+	cur := s.current
+	s.mu.Unlock()
+	if cur == nil {
+		return Decision{}
+	}
+	return s.yield(cur.proc, cur.op.Job, kind, path, opts)
+}
+
 func (s *Sim) YieldCurrent(kind, path string, opts ...YieldOpt) Decision {
 	s.mu.Lock()
 	cur := s.current
@@ -531,6 +575,13 @@ func (s *Sim) Run() {
 		var dec Decision
 		if s.Policy != nil && !chosen.noFault {
 			dec = s.Policy.Decide(s, chosen.op)
+		}
+		if writeSideFaults[dec.Fault] && dec.Salt == 0 {
+			if s.errnoSalt == 0 {
+				// one draw per run, made when the first write-side fault is about to be injected
+				s.errnoSalt = 1 + s.Tape.Draw("errno-salt", 1000)
+			}
+			dec.Salt = s.errnoSalt
 		}
 		s.Steps++
 		s.Now += s.Tick
